@@ -40,7 +40,7 @@ var props = map[string]propMeta{
 	},
 	"C02": {
 		Level: "fault_enumeration",
-		Rule: "family stops: for a seeded base run of the publish flow (both levels, light fault mix) with K storage operations after InitSession, the same seed is re-run 2K times with the process stopped before and after every Save/Delete/Load/List (an interrupted Save or Delete reaches the medium or not by draw), then AdoptSession on the frozen image against the same broker model, 2-4 incarnations with fresh publishes in each, later stops (also inside AdoptSession itself) at drawn operation boundaries; family anywhere: stops at any scheduler step; family fs-store: the same session on the real FileSystem store over the simulated os, killed at a drawn system call (entry, exit, or inside the data write after a drawn byte count). Oracle at the adopted client's first Online: lower (accepted, final acknowledgement not handed over) is a subset of the resumed set, which is a subset of upper (lower + still stored), original identifiers and order, stage PUBREL exactly when the stored record is a PUBREL; no warnings or fatal; nothing lost and no exactly-once duplicate after the last incarnation quiesced." + distinctRule + " non-trivial = a transfer was resumed after a restart",
+		Rule: "family stops: for a seeded base run of the publish flow (both levels, light fault mix) with K storage operations after InitSession, the same seed is re-run 2K times with the process stopped before and after every Save/Delete/Load/List (an interrupted Save or Delete reaches the medium or not by draw), then AdoptSession on the frozen image against the same broker model, 2-4 incarnations with fresh publishes in each, later stops (also inside AdoptSession itself) at drawn operation boundaries; family anywhere: stops at any scheduler step; family wrap: constructed images with the pending ranges at the 14-bit identifier wrap-around; family fs-store: the same session on the real FileSystem store over the simulated os, killed at a drawn system call (entry, exit, or inside the data write after a drawn byte count). Oracle at the adopted client's first Online: lower (accepted, final acknowledgement not handed over) is a subset of the resumed set, which is a subset of upper (lower + still stored), original identifiers and order, stage PUBREL exactly when the stored record is a PUBREL; no warnings or fatal; nothing lost and no exactly-once duplicate after the last incarnation quiesced." + distinctRule + " non-trivial = a transfer was resumed after a restart",
 		Assumptions: append([]string{"the crash model is a process stop: the Persistence keeps exactly what completed operations wrote, plus possibly the one operation in progress", "sweeps are complete over the storage-operation boundaries of each sampled base run, not over all base runs"}, flowAssumptions...),
 		Probes:      []string{"resumed_after_restart", "second_restart_checked", "stop_before_op", "stop_after_op", "stop_anywhere", "stop_inside_write", "stop_before_syscall", "stop_after_syscall"},
 		QuickS:      25, ThoroughS: 400,
@@ -79,6 +79,13 @@ var props = map[string]propMeta{
 		Assumptions: flowAssumptions,
 		Probes:      []string{"ack_after_ownership", "ack_on_new_connection"},
 		QuickS:      20, ThoroughS: 300,
+	},
+	"C09": {
+		Level: "exploration",
+		Rule: "input sampling, said plainly: no schedule or fault decides this property. Each run draws a Config (user name without/with password, password only, empty password, will with empty/non-empty message, retain and both QoS flags, keep-alive 0/1/60/65535, clean session) and a client identifier, connects against the reference broker and issues 2-7 requests with boundary-biased arguments (string lengths 1, 127, 128, 65534, 65535; multi-byte and control characters; payloads across the remaining-length width boundaries 127/128, 16383/16384, 2097151/2097152; 1-4 filters; each level limit), decoding every packet on the wire with the independent strict codec and comparing all fields; 35 % of the requests carry an invalid argument (empty, ten kinds of ill-formed UTF-8, U+0000, 65536 bytes, no filters) and must be denied with IsDeny without a byte written or a storage operation; illegal Config strings must be refused by the constructor; denials do not consume capacity (maximum 1; 40 denied subscribes)." + distinctRule + " non-trivial = every run (each draws a distinct configuration and argument set)",
+		Assumptions: []string{"the 268,435,455-byte packet boundary is not exercised (the wire log would have to hold it); the three smaller remaining-length boundaries are", "the reference codec is correct with respect to MQTT 3.1.1"},
+		Probes:      []string{"connect_decoded", "decoded_PUBLISH", "decoded_SUBSCRIBE", "decoded_UNSUBSCRIBE", "remaining_length_multi_byte", "invalid_ill-formed-utf8", "invalid_nul", "invalid_over-65535", "invalid_empty", "invalid_no-filters", "illegal_config"},
+		QuickS:      15, ThoroughS: 200,
 	},
 	"C10": {
 		Level: "exploration",
@@ -143,11 +150,18 @@ var props = map[string]propMeta{
 		Probes:      []string{"stop_before_syscall", "stop_after_syscall", "stop_inside_write", "stopped_save_new_value", "stopped_save_old_value", "save_failed", "history_linearizable", "fs_err_write", "fs_err_rename", "fs_err_sync"},
 		QuickS:      25, ThoroughS: 400,
 	},
+	"C20": {
+		Level: "exploration",
+		Rule: "seeded generation of expectation lists and invocation sequences over a small alphabet (messages, topics and filter sets each equal or different independently, too few and too many calls, quit nil/open/closed), invoked from 1-3 tasks that interleave at the yields inserted into mqtttest, against a recording testing.TB and a reference model (each expectation returns a unique error value, which tells the model which expectation a call consumed); exchange scripts of NewPublishExchangeStub (errors, timed blocks, ErrClosed, indefinite block) run under the fake clock: order, not-before-its-delay, closed exactly when the script says so; ReadSlices stub copies; closed quit yields ErrCanceled. The comparison clause is input sampling: no fault or schedule decides it." + distinctRule + " non-trivial = a deviation was generated or a script was run",
+		Assumptions: []string{"a failure is 'recorded' when Errorf/Error/Fatalf was called at least once; the number of lines per deviation is not part of the contract", "goroutines interleave at the yields inserted into mqtttest only"},
+		Probes:      []string{"deviation_generated", "exchange_delay_scripted"},
+		QuickS:      15, ThoroughS: 200,
+	},
 	"C17": {
 		Level: "exploration",
-		Rule: "seeded runs with AtLeastOnceMax/ExactlyOnceMax in {0,1,2,3,-1,20000} and 1-4 concurrent publishers; oracles: identifiers of unfinished transactions pairwise distinct and non-zero across the four kinds, in-flight count never above the maximum, ErrMax only with excess and without waiting on the network." + distinctRule + " non-trivial = ErrMax was returned",
+		Rule: "family windows: seeded runs with AtLeastOnceMax/ExactlyOnceMax in {0,1,2,3,-1,20000} and 1-4 concurrent publishers; family wrap: a disk image constructed in the documented record layout with the pending ranges of both levels ending at, straddling or just past identifier 0x3fff (a state a previous process could have left), adopted with maxima in {64,8,-1,20000}, 2-3 incarnations with stops at drawn steps and new publishes across the wrap; oracles: identifiers of unfinished transactions pairwise distinct and non-zero across the four kinds, in-flight count never above the maximum, ErrMax only with excess and without waiting on the network." + distinctRule + " non-trivial = ErrMax was returned",
 		Assumptions: flowAssumptions,
-		Probes:      []string{"errmax_returned"},
+		Probes:      []string{"errmax_returned", "pending_range_straddles_wrap"},
 		QuickS:      20, ThoroughS: 300,
 	},
 	"C18": {
